@@ -366,8 +366,18 @@ class Evaluator:
         self.stack = []         # elements being evaluated (cells elems and space elems)
 
     # -- public --------------------------------------------------------------
-    def ctx_of(self, sid):
-        """context for an idtuple (strings = names, tuples = ItemSpace arguments)"""
+    def ctx_of(self, sid, navigate=True):
+        """context for an idtuple (strings = names, tuples = ItemSpace arguments).
+
+        navigate=True only addresses the context (fault points in parameter formulas do not fire);
+        navigate=False creates the instances as an evaluation would."""
+        self._navigating = navigate
+        try:
+            return self._ctx_of(sid)
+        finally:
+            self._navigating = False
+
+    def _ctx_of(self, sid):
         ctx = None
         for part in sid:
             if isinstance(part, str):
@@ -473,6 +483,12 @@ class Evaluator:
         self.trace.cached[elem] = True
         try:
             argmap = {p: v for (p, _), v in zip(f["params"], key)}
+            if f.get("failtag") and not getattr(self, "_navigating", False) \
+                    and not (self.held is not None and elem in self.held):
+                # (an instance that already exists is served from memory: its formula does not run again)
+                kind = self.m.armed.get(f["failtag"] + str(key[0]))
+                if kind and kind != "None":
+                    raise FAULT_KINDS[kind]("armed parameter formula")
             ret = f.get("ret")
             base = pctx.base
             extra = {}
@@ -493,10 +509,11 @@ class Evaluator:
             self.trace.refreads[elem] = rec[2]
             self.trace.cached[elem] = True
             return ctx
-        except Exception:
-            self.trace.failed.setdefault(elem, (rec[1], rec[2]))
-            self.trace.unwound.append(elem)
-            self.trace.curline[elem] = 1 if f.get("form", "lambda") == "lambda" else 2
+        except BaseException as exc:
+            if not isinstance(exc, Budget):
+                self.trace.failed.setdefault(elem, (rec[1], rec[2]))
+                self.trace.unwound.append(elem)
+                self.trace.curline[elem] = 1 if f.get("form", "lambda") == "lambda" else 2
             raise
         finally:
             self.stack.pop()
@@ -718,7 +735,7 @@ def evaluate(model, sid, name, args=(), kwargs=None, budget=200000, held=None):
     """
     ev = Evaluator(model, budget=budget, held=held)
     try:
-        ctx = ev.ctx_of(sid)
+        ctx = ev.ctx_of(sid, navigate=False)
         v = ev.call_cells(ctx, name, args, kwargs)
         return ("ok", plain(v), ev.trace)
     except Budget:
